@@ -227,6 +227,7 @@ func agentsDriver(args []string) error {
 			return qc
 		}
 		tw.Emit(trace.Ev{"a": "reset", "events": nEvents})
+		uniq := 0
 
 		run := func(role string, factory gossip.TaskFactory, scen func(deliver func(tamper string, lo, hi int, mutate func(b *protocol.BatchSnapshots)))) error {
 			nt := &memNotifier{}
@@ -246,6 +247,12 @@ func agentsDriver(args []string) error {
 				}
 				if mutate != nil {
 					mutate(b)
+				}
+				if role != "publisher" && len(b.Snapshots) > 0 && b.Snapshots[len(b.Snapshots)-1] != nil {
+					// the processor drops a batch whose content it has already seen: make every delivery unique
+					// (the publisher keys on signatures, its batches keep the genuine ones)
+					uniq++
+					b.Snapshots[len(b.Snapshots)-1].Signature = append(append([]byte{}, b.Snapshots[len(b.Snapshots)-1].Signature...), []byte(fmt.Sprintf("#%d", uniq))...)
 				}
 				agent.Qed = newClient() // a failed request marks the only endpoint dead: every delivery gets a fresh client
 				api.set(tamper)
